@@ -21,6 +21,9 @@ pub struct Resv {
     pub with_close: bool,
     pub with_interest: bool,
     pub repeat_bitfield: bool,
+    /// Z: the manager becomes busy and the rest of the swarm fills its command queue to the last
+    /// slot; R: it comes back and works the queue off. Judged once it is back.
+    pub busy: bool,
 }
 
 #[derive(Default, Clone)]
@@ -39,12 +42,15 @@ pub struct PeerMon {
 pub struct Mon {
     pub p: Vec<PeerMon>,
     pub had: Vec<bool>,
+    /// Events since the manager became busy (part of the state: they sit in queues).
+    pub queued: Vec<String>,
+    pub pauses: usize,
 }
 
 impl Scenario for Resv {
     type Mon = Mon;
     fn name(&self) -> String {
-        format!("resv-p{}-n{}-{}-m{:?}{}{}", self.peers, self.pieces, if self.gated { "gated" } else { "direct" }, self.masks, if self.with_close { "-close" } else { "" }, if self.with_interest { "-int" } else { "" }) + if self.repeat_bitfield { "-rebf" } else { "" }
+        format!("resv-p{}-n{}-{}-m{:?}{}{}", self.peers, self.pieces, if self.gated { "gated" } else { "direct" }, self.masks, if self.with_close { "-close" } else { "" }, if self.with_interest { "-int" } else { "" }) + if self.repeat_bitfield { "-rebf" } else { "" } + if self.busy { "-fullqueue" } else { "" }
     }
     fn cfg(&self) -> WorldCfg {
         WorldCfg { torrent: Torrent::new("t", 5, &[("f", 5 * self.pieces)], true), have: vec![], peers: (0..self.peers).map(|k| peer_cfg(k, k % 2 == 0)).collect(), gated: self.gated, stale: vec![] }
@@ -60,9 +66,19 @@ impl Scenario for Resv {
         }
         mon.p = vec![PeerMon { advertised: vec![false; self.pieces], ..Default::default() }; self.peers];
         mon.had = vec![false; self.pieces];
+        if self.busy {
+            w.add_mgr_peer();
+        }
     }
     fn enabled(&self, w: &World, mon: &Mon, _depth: usize) -> Vec<String> {
         let mut out = vec![];
+        if self.busy {
+            if w.manager_paused {
+                out.push("R0".to_string());
+            } else if mon.pauses < 1 {
+                out.push("Z0".to_string());
+            }
+        }
         for k in 0..self.peers {
             if w.peers[k].ended.get() || mon.p[k].closed {
                 continue;
@@ -129,6 +145,8 @@ impl Scenario for Resv {
             }
             "X" => return vec![Ev::Close(k)],
             "L" => return vec![Ev::Release(k)],
+            "Z" => return vec![Ev::PauseManager, Ev::FillQueue],
+            "R" => return vec![Ev::ResumeManager],
             _ => panic!("bad symbol {}", sym),
         };
         vec![Ev::Feed(k, refwire::encode(&msg))]
@@ -168,7 +186,16 @@ impl Scenario for Resv {
                 }
                 "X" => mon.p[k].closed = true,
                 "C" | "U" | "I" | "N" => mon.p[k].spoke = true,
+                "Z" => mon.pauses += 1,
                 _ => {}
+            }
+            if head == "R" {
+                mon.queued.clear();
+            } else if w.manager_paused && head != "Z" {
+                mon.queued.push(sym.to_string());
+            }
+            if head == "Z" && w.queue_filled == 0 {
+                return Some(("machinery", "the queue could not be filled".to_string()));
             }
         }
         let snap = w.snap();
@@ -207,6 +234,10 @@ impl Scenario for Resv {
             mon.had[i] = have;
         }
         // (b) a reservation is backed by a connected, unchoking peer that was asked for the piece
+        // (while the manager is busy its records lag behind by what is queued: judged when it is back)
+        if w.manager_paused {
+            return None;
+        }
         if let Some(v) = reservation_backing(w) {
             return Some(v);
         }
@@ -217,7 +248,7 @@ impl Scenario for Resv {
         // byte counters do not influence anything without timer events
         let k = w.default_key();
         let k = strip_counters(&k);
-        format!("{} mon={:?}", k, pm)
+        format!("{} mon={:?} busy={} q={:?} z={}", k, pm, w.manager_paused, mon.queued, mon.pauses)
     }
 }
 
@@ -293,25 +324,28 @@ pub fn strip_counters(k: &str) -> String {
 pub fn scenarios(thorough: bool) -> Vec<(Resv, usize)> {
     if thorough {
         vec![
-            (Resv { peers: 2, pieces: 3, gated: false, masks: vec![7, 1, 3], with_close: true, with_interest: true, repeat_bitfield: false }, 9),
-            (Resv { peers: 2, pieces: 13, gated: false, masks: vec![7, 1], with_close: true, with_interest: false, repeat_bitfield: false }, 9),
-            (Resv { peers: 3, pieces: 3, gated: false, masks: vec![7], with_close: false, with_interest: false, repeat_bitfield: false }, 8),
-            (Resv { peers: 2, pieces: 3, gated: true, masks: vec![7, 3], with_close: false, with_interest: false, repeat_bitfield: false }, 9),
-            (Resv { peers: 2, pieces: 13, gated: false, masks: vec![1, 3, 6], with_close: false, with_interest: false, repeat_bitfield: true }, 7),
-            (Resv { peers: 2, pieces: 3, gated: false, masks: vec![1, 6], with_close: false, with_interest: true, repeat_bitfield: true }, 8),
-            (Resv { peers: 2, pieces: 1, gated: true, masks: vec![1], with_close: false, with_interest: true, repeat_bitfield: false }, 11),
+            (Resv { peers: 2, pieces: 3, gated: false, masks: vec![7, 1, 3], with_close: true, with_interest: true, repeat_bitfield: false, busy: false }, 9),
+            (Resv { peers: 2, pieces: 13, gated: false, masks: vec![7, 1], with_close: true, with_interest: false, repeat_bitfield: false, busy: false }, 9),
+            (Resv { peers: 3, pieces: 3, gated: false, masks: vec![7], with_close: false, with_interest: false, repeat_bitfield: false, busy: false }, 8),
+            (Resv { peers: 2, pieces: 3, gated: true, masks: vec![7, 3], with_close: false, with_interest: false, repeat_bitfield: false, busy: false }, 9),
+            (Resv { peers: 2, pieces: 13, gated: false, masks: vec![1, 3, 6], with_close: false, with_interest: false, repeat_bitfield: true, busy: false }, 7),
+            (Resv { peers: 2, pieces: 3, gated: false, masks: vec![1, 6], with_close: false, with_interest: true, repeat_bitfield: true, busy: false }, 8),
+            (Resv { peers: 2, pieces: 1, gated: true, masks: vec![1], with_close: false, with_interest: true, repeat_bitfield: false, busy: false }, 11),
+            (Resv { peers: 2, pieces: 3, gated: false, masks: vec![3], with_close: true, with_interest: false, repeat_bitfield: false, busy: true }, 8),
         ]
     } else {
         vec![
-            (Resv { peers: 2, pieces: 3, gated: false, masks: vec![7, 1], with_close: true, with_interest: false, repeat_bitfield: false }, 6),
-            (Resv { peers: 2, pieces: 13, gated: false, masks: vec![7], with_close: false, with_interest: false, repeat_bitfield: false }, 6),
-            (Resv { peers: 2, pieces: 13, gated: false, masks: vec![1, 3], with_close: false, with_interest: false, repeat_bitfield: true }, 5),
-            (Resv { peers: 1, pieces: 3, gated: false, masks: vec![1, 6], with_close: false, with_interest: true, repeat_bitfield: true }, 7),
+            (Resv { peers: 2, pieces: 3, gated: false, masks: vec![7, 1], with_close: true, with_interest: false, repeat_bitfield: false, busy: false }, 6),
+            (Resv { peers: 2, pieces: 13, gated: false, masks: vec![7], with_close: false, with_interest: false, repeat_bitfield: false, busy: false }, 6),
+            (Resv { peers: 2, pieces: 13, gated: false, masks: vec![1, 3], with_close: false, with_interest: false, repeat_bitfield: true, busy: false }, 5),
+            (Resv { peers: 1, pieces: 3, gated: false, masks: vec![1, 6], with_close: false, with_interest: true, repeat_bitfield: true, busy: false }, 7),
             // held-back broadcasts: a peer can leave, choke or finish before its task saw SendHave
-            (Resv { peers: 2, pieces: 3, gated: true, masks: vec![7], with_close: true, with_interest: false, repeat_bitfield: false }, 6),
+            (Resv { peers: 2, pieces: 3, gated: true, masks: vec![7], with_close: true, with_interest: false, repeat_bitfield: false, busy: false }, 6),
             // both peers offer the same single piece (end game: both are asked for it), interest of the
             // peers keeps them connected after the client lost interest; answers to cancelled requests
-            (Resv { peers: 2, pieces: 1, gated: true, masks: vec![1], with_close: false, with_interest: true, repeat_bitfield: false }, 8),
+            (Resv { peers: 2, pieces: 1, gated: true, masks: vec![1], with_close: false, with_interest: true, repeat_bitfield: false, busy: false }, 8),
+            // a busy manager whose command queue is full when the peer's next message arrives
+            (Resv { peers: 1, pieces: 3, gated: false, masks: vec![3], with_close: true, with_interest: false, repeat_bitfield: false, busy: true }, 7),
         ]
     }
 }
@@ -371,7 +405,7 @@ pub fn run(ctx: &Ctx) -> Outcome {
     let mut o = Outcome::new("model_checking");
     explore::stats_outcome(&total, &mut o);
     o.set("scenarios", Value::Array(per));
-    o.set("rule", json!("events per peer k: B<k>:<mask> bitfield over the first three pieces (first message; in the -rebf scenarios also repeated/late, at most twice), H<k>:<i> have, C<k> choke, U<k> unchoke (repeatable), I<k>/N<k> interest, P<k> correct answer to the oldest outstanding request (also while choking), Q<k> answer to a request the client has cancelled (it crossed the Cancel on the wire; gated scenarios), X<k> disconnect, L<k> release of a held-back broadcast (gated scenarios); single-block pieces; torrents of 3 pieces (end game) and 13 pieces of which only 3 are ever advertised (no end game); every Fisher-Yates tie-break of the chooser is a choice point; states = canonical snapshots of manager + all connection tasks + piece files + monitor (rate counters dropped: no timer event). Plus three full-session scenarios borrowed from C02 (reservation-*): a 12-entry tracker reply naming one address twice, a host re-listed under a new peer id, a seeder plus a peer that leaves and is offered again; there only the manager's reservation records are judged (a Reserved piece has a connected, unchoking holder; no task panics)."));
+    o.set("rule", json!("events per peer k: B<k>:<mask> bitfield over the first three pieces (first message; in the -rebf scenarios also repeated/late, at most twice), H<k>:<i> have, C<k> choke, U<k> unchoke (repeatable), I<k>/N<k> interest, P<k> correct answer to the oldest outstanding request (also while choking), Q<k> answer to a request the client has cancelled (it crossed the Cancel on the wire; gated scenarios), X<k> disconnect, L<k> release of a held-back broadcast (gated scenarios); in the -fullqueue scenario Z (the manager becomes busy and 64 statistics reports of the rest of the swarm fill its command queue to the last slot, so a task's next command finds no room) and R (the manager comes back and works the queue off; judged from then on); single-block pieces; torrents of 3 pieces (end game) and 13 pieces of which only 3 are ever advertised (no end game); every Fisher-Yates tie-break of the chooser is a choice point; states = canonical snapshots of manager + all connection tasks + piece files + monitor (rate counters dropped: no timer event). Plus three full-session scenarios borrowed from C02 (reservation-*): a 12-entry tracker reply naming one address twice, a host re-listed under a new peer id, a seeder plus a peer that leaves and is offered again; there only the manager's reservation records are judged (a Reserved piece has a connected, unchoking holder; no task panics)."));
     o.assume("invariants are evaluated in quiescent states (every queued command handled); reduction argument in DESIGN.md 0.2");
     o
 }
